@@ -2631,6 +2631,10 @@ class LinearOperator(object):
         if dim1 >= ndimension or dim2 >= ndimension or not isinstance(dim1, int) or not isinstance(dim2, int):
             raise RuntimeError("Invalid dimension")
 
+        # Transposing a dimension with itself is the identity (as in torch.transpose)
+        if dim1 == dim2:
+            return self
+
         # Batch case
         if dim1 < ndimension - 2 and dim2 < ndimension - 2:
             small_dim = dim1 if dim1 < dim2 else dim2
